@@ -60,7 +60,10 @@ def main():
         except Exception as e:
             raise common.MachineryError('cannot enumerate obligations: %r' % (e,))
         ctx.build(mod.PROPS, obl)
-        mod.run(ctx)
+        try:
+            mod.run(ctx)
+        except common.ImplFailure as f:
+            ctx.violation(f.what, f.input, expected='accepted', observed='%s: %s' % (type(f.exc).__name__, str(f.exc)[:200]))
         if (ctx.broken or ctx.disagreements) and not ctx.violations:
             # a proof obligation or the tie broke: search harder for an input on which the property fails
             ctx.searching = True
